@@ -1,6 +1,5 @@
 import AutoVerif.Props.C17
 import AutoVerif.Spec.C17Plugin
-import AutoVerif.Gen.Consts
 /-
 C17 through the plugin (pkg/v2/ocr.go, pkg/v2/observer/polling/observer.go around the coordinator).
 
@@ -176,36 +175,6 @@ theorem transmit_iff_unconfirmed_key (cfg : Cfg) (pre : List (Nat × Op)) (st : 
   simp only [pout, expOut, POut.mk.injEq] at h
   rw [h.1]
   simp [expTransmit, hne, expConfirmed]
-
-/-! ### the glue's decision points are the source's (regenerated `Gen.Src`) -/
-
-/-- `validatePerformLockoutWindow` / `validateMinConfirmations`: `<= 0` → default -/
-theorem offchainCfg_matches_source (lockoutMs minConfs : Int) :
-    offchainCfg lockoutMs minConfs =
-      { lockout := (if Gen.Src.c17LockoutMsNeedsDefault lockoutMs then 20 * 60 * 1000 else lockoutMs) * 1000000
-        minConfs := if Gen.Src.c17MinConfsNeedsDefault minConfs then 0 else minConfs } := by
-  simp [offchainCfg, Gen.Src.c17LockoutMsNeedsDefault, Gen.Src.c17MinConfsNeedsDefault]
-
-/-- `Observe` and `filterAndDedupe` drop a key on `pending || err != nil` -/
-theorem passes_matches_source (s : State) (now : Nat) (key : Str) :
-    passes s now key = !(Gen.Src.c17ObserveDrops (isPending s now key).1 (isPending s now key).2) ∧
-    passes s now key = !(Gen.Src.c17FilterDrops (isPending s now key).1 (isPending s now key).2) := ⟨rfl, rfl⟩
-
-/-- `ShouldTransmitAcceptedReport`: `len(keys) == 0` → error; `!transmitConfirmed` for some key → transmit -/
-theorem shouldTransmit_matches_source (s : State) (now : Nat) (keys : List Str) :
-    shouldTransmit s now keys =
-      if Gen.Src.c17TransmitNoKeys keys.length then (false, true)
-      else (keys.any fun k => Gen.Src.c17TransmitBecauseOf (isConfirmed s now k), false) := by
-  unfold shouldTransmit
-  cases keys <;> simp [Gen.Src.c17TransmitNoKeys, Gen.Src.c17TransmitBecauseOf]
-
-/-- `ShouldAcceptFinalizedReport`: `len(keys) == 0` → error; otherwise the accept loop -/
-theorem shouldAccept_matches_source (cfg : Cfg) (s : State) (now : Nat) (keys : List Str) :
-    shouldAccept cfg s now keys =
-      if Gen.Src.c17AcceptNoKeys keys.length then (s, false, true)
-      else ((acceptLoop cfg s now keys).1, !(acceptLoop cfg s now keys).2, (acceptLoop cfg s now keys).2) := by
-  unfold shouldAccept
-  cases keys <;> simp [Gen.Src.c17AcceptNoKeys]
 
 /-! ### non-vacuity -/
 
